@@ -184,7 +184,7 @@ def classify_loops(fn):
 
 def loop_key(lp):
     conds = sorted(re.sub(r'\b_\d+\b', '_', show(c)) for _, c in lp.exits)
-    return '%s|loop|%s' % (lp.fn.qual, ' ; '.join(conds)[:400])
+    return re.sub(r'\{(closure|coroutine)#\d+\}', r'{\1}', '%s|loop|%s' % (lp.fn.qual, ' ; '.join(conds)[:400]))
 
 
 # ------------------------------------------------------------------ G3
